@@ -1,0 +1,32 @@
+//go:build verif
+
+package protocol
+
+import "github.com/hujm2023/go-sms-protocol/datacoding"
+
+// VerifSortEncoders orders candidates (given as parallel slices of coding and part
+// count) with the comparator Build uses and returns the resulting permutation.
+func VerifSortEncoders(codings []datacoding.ProtocolDataCoding, parts []int) []int {
+	encoders := make([]*encoder, len(codings))
+	index := make(map[*encoder]int, len(codings))
+	for i := range codings {
+		encoders[i] = &encoder{msgFmt: codings[i], canEncode: true, data: make([][]byte, parts[i])}
+		index[encoders[i]] = i
+	}
+	encoderOrderBy(byLength, byDataCoding).Sort(encoders)
+	out := make([]int, len(encoders))
+	for i, e := range encoders {
+		out[i] = index[e]
+	}
+	return out
+}
+
+// VerifEncoderLess reports the comparator's verdict for two candidates.
+func VerifEncoderLess(c1 datacoding.ProtocolDataCoding, parts1 int, c2 datacoding.ProtocolDataCoding, parts2 int) bool {
+	s := encoderOrderBy(byLength, byDataCoding)
+	s.encoders = []*encoder{
+		{msgFmt: c1, canEncode: true, data: make([][]byte, parts1)},
+		{msgFmt: c2, canEncode: true, data: make([][]byte, parts2)},
+	}
+	return s.Less(0, 1)
+}
